@@ -88,6 +88,15 @@ PROPS = {
         "level_note": "Trusted: Lean kernel; ABI specification transcribed from the Solidity documentation (Base/Abi.lean, fragment: static words, bytes/string, array of static tuples); go-ethereum Pack modelled by the same function and differential-tested; Solidity compiler output not executed (no solc/EVM in the sandbox); keccak/sha256/ECDSA are parameters in theorems (executable Keccak only in the driver).",
         "trusted": ["Base/Abi.lean = ABI spec fragment", "extract/sol_scan.py (regular scanner over three contracts)", "extract/main.go goAbi"],
     },
+    "C10": {
+        "props_module": "LayerModel.Props.C10",
+        "families": [("repstake", 64, 1500, "chain")],
+        "gen": ["facts", "formulas"],
+        "rule": "repstake: histories (real app, one transaction per block) with at least three accepted reports and twenty selection/staking operations; distinct = distinct histories",
+        "level_text": "Theorems for every staking state and history: the two iteration strategies of ReporterStake (over the selector's delegations / over the bonded validators) give the same stake for any shares-to-tokens conversion whenever validator names and delegation targets are unique, so the delegation counter never influences the result; a jailed reporter has no stake and is released only after its jail time; only selectors of the reporter that are outside their lock period are counted; the selection table keeps one entry per address under every message (exactly one reporter per selector); an accepted SelectReporter/SwitchReporter finds the reporter below the cap and the joiner at or above the reporter's minimum, CreateReporter needs the module minimum; lock invariant by induction over arbitrary interleavings of delegations, validator status changes, reports, selections, switches, jailings and time steps: when a selector's stake enters a report of B after a report of A != B, at least the unbonding period lies between them (C10_no_double_count_partial: excludes RemoveSelector of that selector; counterexample theorem for remove + select, reachable only with more selectors than the cap). Tie: the real app runs generated histories (1..4 validators, validator caps down to 2, several delegations per selector, switches inside tipped rounds, minor/warning disputes, jail-time boundaries, 21-day jumps); for every selection message the model's decision and resulting tables are compared with the implementation's, for every accepted report the stored total and origins with the model's stake computed from the staking dump; monitors on the implementation's data: power = total/10^6 = sum of origins, origins only from unlocked selectors of an unjailed reporter, delegation counter = number of delegations, joins respect cap and minimum, release not before the jail time, no delegator in two reporters' reports of one round.",
+        "level_note": "Trusted: Lean kernel; model Chain/Reporter.lean (staking state is an input read from the store after every block; one transaction per block so that the pre-state of each message is the previous dump; blocks in which begin/end-block code changed the staking state are skipped for the model comparison and counted). The full no-double-counting statement is proved without RemoveSelector of the observed selector only (see the counterexample theorem and DESIGN.md).",
+        "trusted": ["model Chain/Reporter.lean", "harness chain_test.go, fam_repstake_test.go"],
+    },
     "C12": {
         "props_module": "LayerModel.Props.C12",
         "families": [("tally", 6000, 300000), ("ratio", 2000, 50000)],
